@@ -61,4 +61,10 @@ CHECKS["C14"] = dict(
    text="Held on the sampled parameter sets: heat-equation residual, declared boundary operators, t->0+ initial profile, t->infinity static solution for Rod1D BC1-BC4 and the three sandwiches, Rectangle (PDE, top/bottom, initial data), Hutchens1 (PDE, surface, initial data). Sampling, not proof; five genuine defects (Rod1D Robin, Hutchens1 r=0, Hutchens2 accumulator, Rectangle sides, CylindricalSandwich) are listed known findings and are re-observed on every run.",
    design_ref="5/C14", note=_T + "; series tolerances from the first omitted term; aspect ratios that overflow sinh/I0 are left to C20",
    technique="PDE/boundary-operator residual monitor over recorded public calls (finite-difference oracle with error bars)")
+CHECKS["C18"] = dict(
+   text="Held on the sampled (opacity, alpha/epsilon, boundary temperature, x, tau) probes: residuals of both dimensionless equations from finite differences of the returned temperatures, Marshak condition at x=0 by a one-sided stencil, decay 10-30 mean free paths ahead of the wave, ordering 0<=v<=u<=1. Sampling, not proof; tolerance 1e-4 (the solver's oscillatory quadrature is good to ~1e-6..1e-5).",
+   design_ref="5/C18", note=_T, technique="PDE-residual monitor over recorded public calls (finite-difference oracle with error bars)")
+CHECKS["C19"] = dict(
+   text="Held on the sampled supersonic state pairs (flow angles 0, equal and different, unequal gammas): pointwise consistency of u,v,M,c,e; slip-line balance; oblique-shock density ratio, downstream Mach number, turning angle and shock position located on the returned fields; fan isentropy and total enthalpy. Sampling, not proof; the wrong Prandtl-Meyer function (fan turning, ray placement) is a listed known finding; two shock-placement defects for non-zero flow angles were repaired.",
+   design_ref="5/C19", note=_T, technique="reference-relation monitor (oblique-shock / Prandtl-Meyer theory) over recorded public calls, wave positions located on the returned fields")
 NOT_YET = {}
